@@ -6,6 +6,6 @@ cd /tmp/mutwt && git checkout -q -- . && git clean -fdq && git apply $D || exit 
 /verif/dev.sh /tmp/mutwt > /tmp/vdev/build.out 2>&1 || { tail -20 /tmp/vdev/build.out; cd /tmp/mutwt && git checkout -q -- .; exit 2; }
 cd /tmp/vdev && rm -rf replays
 for P in $PROPS; do
-  ./harness.bin run -prop $P -tier quick -seed ${SEED:-1} -workers 16 -inv inv.json ${3:+-cases $3} -replaydir /tmp/vdev/replays -known /verif/known_findings.json -scratch /tmp/vdev 2>&1 | grep -A2 "VIOLATION\|quick:\|ERROR\|STALL\|KNOWN" | cut -c1-400
+  ./harness.bin run -prop $P -tier quick -seed ${SEED:-1} -workers 16 -inv inv.json ${3:+-cases $3} -replaydir /tmp/vdev/replays -known /verif/known_findings.json -scratch /tmp/vdev 2>&1 | grep -a -A2 "VIOLATION\|quick:\|ERROR\|STALL\|KNOWN" | cut -c1-400
 done
 cd /tmp/mutwt && git checkout -q -- .
